@@ -262,6 +262,29 @@ func propC06(c *Ctx) {
 			}())
 		}
 	}
+	// extreme deliveries: all ones, all zeros, the largest and smallest values next to them, a single bit — each
+	// followed by surplus bytes, so that an implementation which silently draws again (rejection sampling
+	// with an exclusive bound, a "looks degenerate, retry" test) returns the mnemonic of the wrong bytes
+	for _, n := range wordCounts {
+		need := int(n) * 4 / 3
+		fill := func(b byte) []byte { return bytes.Repeat([]byte{b}, need) }
+		pats := [][]byte{fill(0xff), fill(0x00), fill(0x80), fill(0x7f), fill(0x01)}
+		for _, edit := range []struct {
+			base byte
+			pos  int
+			val  byte
+		}{{0xff, need - 1, 0xfe}, {0xff, 0, 0x7f}, {0xff, 0, 0xfe}, {0x00, need - 1, 0x01}, {0x00, 0, 0x80}, {0x00, 0, 0x01}} {
+			p := fill(edit.base)
+			p[edit.pos] = edit.val
+			pats = append(pats, p)
+		}
+		for i, p := range pats {
+			l := int64(langVals[(i+int(n))%10])
+			c.newm("ok:extreme-bytes", n, l, hx(p)+":-")
+			c.newm("ok:extreme-bytes:surplus", n, l, hx(append(append([]byte{}, p...), c.randBytes(need+7)...))+":-")
+			c.newm("ok:extreme-bytes:fragmented", n, l, fragment(c, p, true)+","+hx(c.randBytes(need))+":-")
+		}
+	}
 	c.sharedReaderCalls()
 	r.Exhaustive = true
 	r.sample("newm 24 English 20 bytes:-,_:o7 -> err io:o7 reads=2 (no mnemonic from a partially filled buffer)")
@@ -373,6 +396,8 @@ func propC07(c *Ctx) {
 			r.violate(Violation{Kind: "property", Class: "default-call", Op: "bit balance", Impl: fmt.Sprintf("%.4f", frac), Detail: "default output is grossly unbalanced"})
 		}
 	}
+	// the same under every environment variable the source consults (none on the unchanged tree)
+	c.envProbesC07()
 	// a source that keeps failing with a "temporary" error must produce an error, never a mnemonic of
 	// whatever is in the buffer
 	for _, n := range wordCounts {
